@@ -18,6 +18,14 @@
   ChunkSplitter arithmetic, `shared_atts`) the resulting texts/runs are DATA carried by the operation and
   only the allocation pattern is modelled.
 
+  Not allocated on purpose: objects an operation creates and drops without storing them anywhere a later
+  step can reach, when they carry no aliasing (the unconditional `tail = Chunk(...)` of `splice`,
+  formatstring.py:389, which is overwritten or unused; the generator objects; the tuples of `*args`).
+  Temporary LISTS and intermediate FmtStr objects are allocated (they are where aliasing could arise).
+  One attribute-dict object per run object: `Chunk.__init__` always builds a new `FrozenAttributes`, so the
+  identity of a run's `atts` object is the identity of the run (the driver prints the run id for it and the
+  harness compares it with `id(c.atts)`).
+
   `interp u chk c owned h` runs a command.  `chk = false` is the plain semantics (fails only on a
   dangling reference; list mutation works on ANY list, a memo write stores ANY value).  `chk = true`
   additionally enforces the discipline the frame/cache theorems rest on:
@@ -548,7 +556,7 @@ def append (a : Nat) (new : Arg) : Cmd Nat := do
   splice a new t.length none
 
 /-- `split` / `splitlines`: `self.s`, then `self[start:end]` for bounds computed by `re` / `str`
-    (the bounds are data). -/
+    (the bounds are data; `.error` = the separator was rejected after `self.s` was read). -/
 def slicesLoop (a : Nat) : List (Nat × Nat) → Cmd (Except PyErr (List Nat))
   | [] => pure (.ok [])
   | (s, e) :: rest => do
@@ -559,9 +567,11 @@ def slicesLoop (a : Nat) : List (Nat × Nat) → Cmd (Except PyErr (List Nat))
       | .error err => pure (.error err)
       | .ok rs => pure (.ok (r :: rs))
 
-def slices (a : Nat) (bounds : List (Nat × Nat)) : Cmd (Except PyErr (List Nat)) := do
-  let _ ← obsS a
-  slicesLoop a bounds
+def slices (a : Nat) (bounds : Except PyErr (List (Nat × Nat))) : Cmd (Except PyErr (List Nat)) := do
+  let _ ← obsS a                                   -- s = self.s
+  match bounds with
+  | .error e => pure (.error e)                    -- `split("")`: ValueError("empty separator")
+  | .ok bs => slicesLoop a bs
 
 /-- `x + y` or `y + x` -/
 def addEither (left : Bool) (a b : Nat) : Cmd Nat := if left then add a b else add b a
@@ -710,6 +720,17 @@ def delegated (a : Nat) (res : Except PyErr (Option (List Text))) (shared : Exce
       let rs ← delegPieces sh ts
       pure (.ok rs)
 
+/-- `str(other)` for the right operand of `==` -/
+def argStr : Arg → Cmd Text
+  | .ref r => obsStr r
+  | .str t => pure t
+
+/-- `a == other` (`FmtStr.__eq__`): `str(self) == str(other)` - fills `_unicode` of both operands. -/
+def eqOp (a : Nat) (other : Arg) : Cmd Bool := do
+  let x ← obsStr a
+  let y ← argStr other
+  pure (decide (x = y))
+
 /-- `f.chunks[k].color_str` -/
 def obsColor (a : Nat) (k : Nat) : Cmd (Except PyErr Text) := do
   let cs ← contents a
@@ -734,13 +755,15 @@ inductive Op
   | nwar (a : Nat) (ks : List Key)
   | cwns (a : Nat) (t : Text)
   | copy (a : Nat)
-  | slices (a : Nat) (bounds : List (Nat × Nat))        -- split, splitlines
+  | slices (a : Nat) (bounds : Except PyErr (List (Nat × Nat)))   -- split, splitlines
   | just (left : Bool) (a : Nat) (width : Int) (fill : Option Text) (shared : Except PyErr Atts)
   | wslice (a : Nat) (idx : Index)                      -- width_aware_slice
   | wsplit (a : Nat) (columns : Int) (lines : List (List Chunk × Bool))   -- width_aware_splitlines
   | deleg (a : Nat) (res : Except PyErr (Option (List Text))) (shared : Except PyErr Atts)
   | obsStr (a : Nat) | obsLen (a : Nat) | obsS (a : Nat) | obsWidth (a : Nat)
   | obsColor (a : Nat) (k : Nat)
+  | eq (a : Nat) (other : Arg)                          -- a == other
+  | hash (a : Nat)                                      -- hash(a) = hash(str(a)); the number itself is not modelled
   | setitem (a : Nat)                                   -- f[i] = x
   /-- `f.chunks[k].atts.<name>(…)` for a method name of `dir(dict)` that changes a plain dict.
       `after` = the dict a plain `dict` would hold after the call (data; used only for `__init__`). -/
@@ -751,6 +774,9 @@ inductive Res
   | refs (rs : List Nat)      -- FmtStr result(s)
   | text (t : Text)
   | int (i : Int)
+  | bool (b : Bool)
+  | opaque                    -- a value the model does not describe (`hash`)
+  | outside                   -- the call is outside the model's domain; nothing is claimed about it
   | err (e : PyErr)
   deriving Repr, Inhabited, DecidableEq
 
@@ -771,10 +797,10 @@ def opRefs : Op → List Nat
   | .lit _ | .fmtstrOf _ _ => []
   | .add a b => [a, b]
   | .join sep items => sep :: items.flatMap Arg.refs
-  | .splice a new _ _ | .append a new => a :: new.refs
+  | .splice a new _ _ | .append a new | .eq a new => a :: new.refs
   | .addStr a _ | .raddStr a _ | .mul a _ | .getitem a _ | .cwna a _ | .nwar a _ | .cwns a _ | .copy a
   | .slices a _ | .just _ a _ _ _ | .wslice a _ | .wsplit a _ _ | .deleg a _ _
-  | .obsStr a | .obsLen a | .obsS a | .obsWidth a | .obsColor a _ | .setitem a | .attsMutate a _ _ _ => [a]
+  | .obsStr a | .obsLen a | .obsS a | .obsWidth a | .obsColor a _ | .hash a | .setitem a | .attsMutate a _ _ _ => [a]
 
 /-- The command of an operation. -/
 def opCmd (u : UEnv) : Op → Cmd Res
@@ -786,7 +812,11 @@ def opCmd (u : UEnv) : Op → Cmd Res
   | .mul a n => do pure (.one (← mul a n))
   | .join sep items => do pure (.one (← join sep items))
   | .getitem a idx => do pure (.ofExcept (← getitem a idx))
-  | .splice a new start end_ => do pure (.one (← splice a new start end_))
+  -- `end < start`: the code slices runs with NEGATIVE offsets there (`bfs.s[end - bfs_start:]` wraps around),
+  -- which `spliceParts`/`spliceLoop` (truncated subtraction) do not mirror: outside the model
+  | .splice a new start end_ =>
+    if end_.getD start < start then pure .outside
+    else do pure (.one (← splice a new start end_))
   | .append a new => do pure (.one (← append a new))
   | .cwna a atts => do pure (.one (← cwna a atts))
   | .nwar a ks => do pure (.one (← nwar a ks))
@@ -808,6 +838,10 @@ def opCmd (u : UEnv) : Op → Cmd Res
     match ← obsColor a k with
     | .ok t => pure (.text t)
     | .error e => pure (.err e)
+  | .eq a other => do pure (.bool (← eqOp a other))
+  | .hash a => do
+    let _ ← obsStr a
+    pure .opaque
   -- `FmtStr.__setitem__`: `raise Exception("No!")`
   | .setitem _ => pure (.err .otherException)
   -- every in-place method of `FrozenAttributes` is `raise Exception("Cannot change value.")` - except
